@@ -43,6 +43,10 @@ PROP = dict(
              "front of or behind the fixed part, glued with nothing, `_` or `-`; a sibling key under another selector value holds a different value; computed and "
              "flat placeholders stand side by side in one expression. Placeholders are substituted inside-out (the harness substitutes from the tag's syntax "
              "tree): the expression must see, and validation must judge, the SELECTED value (oracles expr-result / validate-iff / bind-direct); "
+             "after these, one further case per twelve carries QUOTE CHARACTERS in the value part of its tag, in front of a `,validate=...` argument that the bound text satisfies or violates "
+             "(chosen against the harness's own substitution): apostrophes and double quotes in odd and even numbers (o'clock, it's, 5\", rock'n'roll, 'q', say \"hi\", '') in the text "
+             "around an expression, inside a placeholder's default (`${k:don't panic}`, key absent or configured), in a plain literal, inside a string literal of the expression "
+             "(\"it's\", an escaped \\\") on string / any / *string / int fields - a quote is an ordinary byte of a tag, the argument behind it must be parsed and validation must run; "
              "30% of the holders also carry an optional wire dependency (both property groups exist) and are started 4 times, every start must agree (oracle start-unstable); non-trivial = all; distinct = distinct scenario lines",
         trusted_base=COMMON_TB + ["the go/ast facts translator for Facts.builtinProcessors / orderConsts",
                                   "expr-lang/expr and go-playground/validator themselves (opaque; called directly by the oracle)",
